@@ -66,7 +66,7 @@ RULE = ("one case = one invocation of the real `deep patch` (or of save_content_
         "pairs (all, for a subset of document pairs) and random triples; document pools include member names beginning/ending with one kind of quote character, non-ASCII / astral / unpaired-surrogate text in values and names, 400-digit integers and out-of-range floats (1e999 = inf) with int<->float changes whose constructor call overflows; a separate-process stream runs the CLI under LC_ALL=C PYTHONUTF8=0 on documents with non-ASCII text; plus a round-trip-only stream (fault-free diff -> patch through the real CLI, 900 quick / 6000 thorough pairs): scalar lists related by insert/delete/replace/move/dup/rotate edit scripts (values.gen_atom_list_pair, JSON alphabets keeping 1/true/1.0 apart) and 'inserts in front of an unchanged run + deletes behind it', planted under 0-2 dict/list levels; non-trivial = a fault fired or A != B; "
         "distinct = distinct (A text, B text, flags, schedule); "
         "round 3: histories = 60 quick / 400 thorough sequences of 3-5 commands on generated JSON documents (keys from a pool without quote / escape characters), fault plan per command: none 35%, one fault point 45%, two 20%, kinds Exception / KeyboardInterrupt; "
-        "extension streams (not part of the property's totals): crash = (file type in json, csv, pickle, toml [+ tsv, unknown in thorough]) x (serialisable / rejected at once / rejected after writes) x keep_backup x fault plans (none, every single Exception fault, 4 [all] KeyboardInterrupt singles, 6 [all] pairs) x A.bak pre-existing x crash points (before each of 7 steps, mid-write at the first four write calls, between the phases of a two-phase rename); "
+        "extension streams (not part of the property's totals): crash = (file type in json, csv, pickle, toml [+ tsv, unknown in thorough]) x (serialisable / rejected at once / rejected after writes) x keep_backup x fault plans (none, every single Exception fault, 4 [all] KeyboardInterrupt singles, 4 [all] pairs; the rejected-document kinds with one keep_backup value in quick) x A.bak pre-existing x crash points (before each of 7 steps, mid-write at the first four write calls, between the phases of a two-phase rename); "
         "formats = 8 extensions x 21 plans x keep_backup of `deep patch`, 32 path names for the dispatch, 160 quick / 1200 thorough generated csv / pickle pairs (30% of the csv pairs against a JSON file whose rows the csv codec does not round-trip), 10 codec witnesses")
 TRUSTED = [
     "the file system is modelled abstractly (path -> option content) with POSIX semantics: os.rename is atomic, replaces an existing regular file, "
@@ -1510,7 +1510,7 @@ def crash_task(args):
     for (s, v) in base_pts:
         plans.append({s: ("base", v)})
     pairs = [(p, q) for i, p in enumerate(SAVE_POINTS) for q in SAVE_POINTS[i + 1:] if p[0] != q[0]]
-    for (p, q) in (pairs if thorough else rng.sample(pairs, 6)):
+    for (p, q) in (pairs if thorough else rng.sample(pairs, 4)):
         plans.append({p[0]: (rng.choice(["exc", "exc", "base"]), p[1]), q[0]: (rng.choice(["exc", "base"]), q[1])})
 
     for plan in plans:
@@ -2312,7 +2312,7 @@ def run(ctx):
     for ftype, kinds in ((("json", ("ok", "bad")), ("csv", ("ok", "bad", "late")), ("pickle", ("ok", "bad", "late")),
                           ("toml", ("ok",))) + ((("xyz", ("ok",)), ("tsv", ("ok",))) if ctx.thorough else ())):
         for kind in kinds:
-            for keep in (False, True):
+            for keep in ((False, True) if (ctx.thorough or kind == "ok") else (ftype == "csv",)):
                 ctasks.append((ftype, keep, kind, rng.randrange(1 << 30), ctx.thorough, ctx.scratch))
     ftasks = [(ft, rng.randrange(1 << 30), ctx.thorough, ctx.scratch) for ft in ("csv", "tsv", "pickle", "toml", "yaml", "yml", "xyz", "json")]
     n_rt = 300 if ctx.thorough else 40
